@@ -1,6 +1,7 @@
 //! Exploration engine: parallel driver, counters, violation collection, known-finding
 //! matching, evidence and replay writers.
 
+pub mod isolate;
 pub mod json;
 
 use json::J;
@@ -358,6 +359,14 @@ impl Run {
             }
         }
 
+        if std::env::var("VERIF_DUMP_SIGS").is_ok() {
+            let mut seen = HashSet::new();
+            for (_, v) in sh.violations.iter() {
+                if seen.insert(format!("{:?}|{}", v.finding, v.sig)) {
+                    eprintln!("SIG {:?} {}\n    case: {}\n    detail: {}", v.finding, v.sig, v.case, v.detail.lines().next().unwrap_or(""));
+                }
+            }
+        }
         // keep up to five violations with pairwise different signatures
         let mut chosen: Vec<&Violation> = Vec::new();
         let mut seen = HashSet::new();
